@@ -65,29 +65,113 @@ fn check_report(ctx: &mut Ctx, who: &str, class: &str, mask: &[i32], sigpipe_mod
 }
 
 fn single(ctx: &mut Ctx, mask: Vec<i32>, sigpipe_mode: u64, tag: &str, from_thread: bool) {
+    single_v(ctx, mask, sigpipe_mode, tag, from_thread, 0)
+}
+
+/// `variant` != 0: the launch is not the plain one - streams are redirected, the file for a stream already sits on
+/// that stream's descriptor number (the parent had closed it), options are set, or the first exec attempt fails with a
+/// transient error.  Whatever path the child takes to the program, it arrives there with a clean signal state.
+fn single_v(ctx: &mut Ctx, mask: Vec<i32>, sigpipe_mode: u64, tag: &str, from_thread: bool, variant: u64) {
+    use crate::ilog::k;
+    use crate::plan::{self, Rule};
     run::begin_case();
     let dir = ctx.scratch("c18");
     let exe = spawn::report_exe(ctx, &dir, "s", "x");
     let exe2 = exe.clone();
     let mask2 = mask.clone();
+    let mut vr = Rng::new(variant, 18, 0);
+    let mut config = PopenConfig::default();
+    let mut what = String::new();
+    let mut on_own_number: Option<(i32, i32)> = None; // (stream, saved copy of the parent's descriptor)
+    let mut transient: Option<i32> = None;
+    if variant != 0 {
+        let mk = |vr: &mut Rng, s: usize, dir: &std::path::Path| match vr.below(4) {
+            0 => Redirection::None,
+            1 => Redirection::Pipe,
+            2 => Redirection::File(std::fs::OpenOptions::new().create(true).read(true).write(true).open(dir.join(format!("f{}", s))).unwrap()),
+            _ => {
+                if s == 2 { Redirection::Merge } else { Redirection::None }
+            }
+        };
+        config.stdin = mk(&mut vr, 0, &dir);
+        config.stdout = mk(&mut vr, 1, &dir);
+        config.stderr = mk(&mut vr, 2, &dir);
+        if vr.chance(300) {
+            config.setpgid = true;
+        }
+        if vr.chance(300) {
+            config.cwd = Some(dir.clone().into_os_string());
+        }
+        if vr.chance(300) {
+            config.env = Some(vec![("A".into(), "b".into())]);
+        }
+        if vr.chance(400) {
+            // the parent has closed its descriptor s; the file it opens next gets that number and is handed over for stream s
+            let s = vr.below(3) as i32;
+            let _g = crate::inspect::proc_guard();
+            let keep = unsafe {
+                let keep = libc::syscall(libc::SYS_fcntl, s, libc::F_DUPFD_CLOEXEC, 100) as i32;
+                libc::syscall(libc::SYS_close, s);
+                keep
+            };
+            let f = std::fs::OpenOptions::new().create(true).read(true).write(true).open(dir.join(format!("own{}", s))).unwrap();
+            use std::os::unix::io::AsRawFd;
+            what.push_str(&format!(" file-for-stream-{}-sits-on-fd-{}", s, f.as_raw_fd()));
+            match s {
+                0 => config.stdin = Redirection::File(f),
+                1 => config.stdout = Redirection::File(f),
+                _ => config.stderr = Redirection::File(f),
+            }
+            on_own_number = Some((s, keep));
+            ctx.count("launches_with_a_stream_file_on_its_own_descriptor_number", 1);
+        }
+        if vr.chance(350) {
+            let e = *vr.pick(&[libc::ETXTBSY, libc::EAGAIN, libc::EINTR, libc::ENOMEM]);
+            transient = Some(e);
+            what.push_str(&format!(" first-exec-attempt-fails-with-{}", spawn::errno_name(e)));
+            ctx.count("launches_whose_first_exec_attempt_fails_transiently", 1);
+        }
+        what = format!("{:?}/{:?}/{:?}{}{}{}{}", config.stdin, config.stdout, config.stderr, if config.setpgid { " setpgid" } else { "" }, if config.cwd.is_some() { " cwd" } else { "" }, if config.env.is_some() { " env" } else { "" }, what);
+    }
+    // (no Rc inside: only None/Pipe/File/Merge are used here, so the configuration may move to the spawning thread)
+    struct Movable(PopenConfig);
+    unsafe impl Send for Movable {}
+    let config = Movable(config);
     let body = move || {
+        let config = config;
+        let config = config.0;
         let argv = vec![exe2.clone().into_os_string()];
         unsafe {
             let oldp = set_sigpipe(sigpipe_mode);
             let old = set_mask(&mask2);
-            let r = run::monitored(|| Popen::create(&argv, PopenConfig::default()));
+            if let Some(e) = transient {
+                plan::add(Rule { kind: k::EXECVE, scope: plan::SCOPE_CHILD, nth: 1, fd: -1, act: plan::ACT_FAIL, val: e as i64, prob: 1000 });
+            }
+            let r = run::monitored(|| Popen::create(&argv, config));
             restore_mask(&old);
             libc::signal(libc::SIGPIPE, oldp);
             r
         }
     };
     let m = if from_thread { std::thread::scope(|s| s.spawn(body).join().unwrap()) } else { body() };
+    if let Some((s, keep)) = on_own_number {
+        let _g = crate::inspect::proc_guard();
+        unsafe {
+            libc::syscall(libc::SYS_dup3, keep, s, 0);
+            libc::syscall(libc::SYS_close, keep);
+        }
+    }
     match m.result {
         Some(Ok(mut p)) => {
+            drop(p.stdin.take());
+            drop(p.stdout.take());
+            drop(p.stderr.take());
             let _ = p.wait();
-            check_report(ctx, "single command", tag, &mask, sigpipe_mode, &exe);
+            check_report(ctx, &format!("single command{}", if what.is_empty() { String::new() } else { format!(" [{}]", what) }), tag, &mask, sigpipe_mode, &exe);
         }
-        Some(Err(e)) => ctx.violation(&format!("C18/launch-failed/{}", tag), &format!("launch failed: {:?}", e), J::s(&format!("{:?}", mask))),
+        // a launch whose only exec attempt was made to fail has every right to fail
+        Some(Err(_)) if transient.is_some() => ctx.count("launches_that_failed_with_the_injected_error", 1),
+        Some(Err(e)) => ctx.violation(&format!("C18/launch-failed/{}", tag), &format!("launch failed: {:?}", e), J::s(&format!("{:?} {}", mask, what))),
         None => ctx.violation(&format!("C18/panic/{}", tag), "panic", J::Null),
     }
     ctx.count("masks_tried", 1);
@@ -262,6 +346,14 @@ pub fn run(ctx: &mut Ctx) {
         let mode = rng.below(3);
         ctx.distinct(&format!("rnd|{:?}|{}", mask, mode));
         single(ctx, mask, mode, if i % 2 == 0 { "random-mask" } else { "secondary-thread" }, i % 2 == 1);
+    });
+    let nv = ctx.n(800, 20_000);
+    ctx.family("launch-variants", nv, |ctx, rng, i| {
+        let mask: Vec<i32> = (1..=64).filter(|&s| blockable(s) && rng.chance(500)).collect();
+        let mode = rng.below(3);
+        let v = rng.next() | 1;
+        ctx.distinct(&format!("var|{}|{}", v % 4096, mode));
+        single_v(ctx, mask, mode, "launch-variant", i % 4 == 3, v);
     });
     let np = ctx.n(300, 6000);
     ctx.family("pipeline", np, pipeline);
